@@ -54,6 +54,16 @@ CHECKS = {
             'finally) and skeletons with all decision vectors.',
             'Finally bodies executed during exceptional propagation and implicit exceptions out of calls are exempt as documented.',
             'DESIGN.md 3/C05'),
+    'C06': ('exploration',
+            'probe twin with a last-writer shadow environment; locals() snapshots; fixed-point check on recorded Analyzer objects',
+            'The real analyses annotate the tree whose instrumented copy is executed: every Name load reports which binding '
+            'occurrence last wrote the variable (per-invocation shadow environments chained through closures), and the Definition '
+            'attached to that binding must be among DEFINITIONS of the read; locals() at every if/for/while/try entry must be within '
+            'DEFINED_VARS_IN; every recorded reaching-definitions Analyzer must satisfy in = union of predecessor outs (loop-exit edges '
+            'bounded between in and in|out of the header) and out = gen | (in - kill). One open known finding (definitions do not '
+            'cross function boundaries) is classified by the binding and the read lying in different functions.',
+            'Reads in lambda bodies and except-clause names are not judged (documented as untracked).',
+            'DESIGN.md 3/C06'),
     'C09': ('exploration',
             'interface differential against the original function object and CPython argument binding',
             'Random signatures over all five parameter kinds and closure shapes, as functions, lambdas, methods, loop-made and '
